@@ -16,56 +16,11 @@ keys, with two explicit, decidable exclusions (`excluded`):
 A caller "holds" entry `e` from the region that hands it `e`'s value to the first region of its
 `Delete` (`holders`).
 -/
-import CaddyModel.C04.Step
+import CaddyModel.C04.Reach
 import CaddyModel.C04.Spec
+import CaddyModel.C04.Witness
 
 namespace CaddyModel.C04
-
-/-- reached from the empty pool by some schedule without excluded labels -/
-def Reachable (s : G) : Prop :=
-  ∃ ls : List Label, cleanRun G.init ls = true ∧ runLabels G.init ls = some s
-
-/-- **the invariant holds in every reachable state** (induction over the schedule) -/
-theorem inv_reachable {s : G} (h : Reachable s) : Inv s := by
-  obtain ⟨ls, hc, hr⟩ := h
-  exact inv_run ls G.init s inv_init hc hr
-
-theorem reachable_step {s s' : G} {l : Label} (h : Reachable s) (hx : excluded s l = false)
-    (hs : gstep s l = some s') : Reachable s' := by
-  obtain ⟨ls, hc, hr⟩ := h
-  refine ⟨ls ++ [l], ?_, ?_⟩
-  · have : ∀ (ls : List Label) (s0 : G), cleanRun s0 ls = true → runLabels s0 ls = some s →
-        cleanRun s0 (ls ++ [l]) = true := by
-      intro ls
-      induction ls with
-      | nil =>
-        intro s0 _ hr
-        simp only [runLabels] at hr; cases hr
-        simp [cleanRun, hx, hs]
-      | cons a as ih =>
-        intro s0 hc hr
-        simp only [runLabels] at hr
-        simp only [cleanRun, Bool.and_eq_true] at hc
-        cases hg : gstep s0 a with
-        | none => rw [hg] at hr; cases hr
-        | some s1 =>
-          rw [hg] at hr
-          have hc2 := hc.2
-          rw [hg] at hc2
-          simp only [List.cons_append, cleanRun, Bool.and_eq_true, hg]
-          exact ⟨hc.1, ih s1 hc2 hr⟩
-    exact this ls G.init hc hr
-  · have : ∀ (ls : List Label) (s0 : G), runLabels s0 ls = some s → runLabels s0 (ls ++ [l]) = some s' := by
-      intro ls
-      induction ls with
-      | nil => intro s0 hr; simp only [runLabels] at hr; cases hr; simp [runLabels, hs]
-      | cons a as ih =>
-        intro s0 hr
-        simp only [runLabels] at hr
-        cases hg : gstep s0 a with
-        | none => rw [hg] at hr; cases hr
-        | some s1 => rw [hg] at hr; simp only [List.cons_append, runLabels, hg]; exact ih s1 hr
-    exact this ls G.init hr
 
 /-! ### at most one live value per key -/
 
@@ -310,5 +265,20 @@ example : (runLabels G.init [.lnLookup 0, .lnLookup 0, .ctorErr 0, .lnFailDel 0,
 -- a released entry and a new live entry of the same key
 example : (runLabels G.init [.lsLookup 0, .del1 0 (some 0), .lsLookup 0]).map
     (fun s => (s.pool 0, (s.ent 0).del2, (s.ent 1).holders)) = some (some 1, 1, 1) := by decide
+
+/-! ### the executable thread-level model stays inside the proved state space -/
+
+/-- **every case the driver runs stays inside the proved state space**: for all programs, thread
+    counts and schedules, if no excluded label was executed the final state is reachable (so the
+    invariant and every property theorem hold in it) -/
+theorem runSched_reachable (nk : Nat) (progs : List (List Op)) (sched : List Nat) :
+    (runSched nk progs sched).clean = true → Reachable (runSched nk progs sched).g := by
+  unfold runSched
+  exact drain_reachable nk _ _ (foldl_tstep_reachable nk sched _ (fun _ => reachable_init))
+
+-- non-vacuity: a 3-thread case whose run is clean, and the F12 case whose run is not
+example : (runSched 1 [[.ln 0 true, .cdel 0], [.ln 0 true, .cdel 0], [.refs 0]] [0, 0, 1, 1, 2, 2, 0]).clean = true := by decide
+example : (runSched 1 [[.ln 0 false], [.ls 0, .cdel 0], [.ln 0 true]] [0, 1, 0, 0, 1]).clean = false := by decide
+
 
 end CaddyModel.C04
